@@ -12,6 +12,7 @@ import (
 	"os"
 	"path/filepath"
 	"sort"
+	"strconv"
 	"strings"
 	"sync/atomic"
 	"syscall"
@@ -368,6 +369,9 @@ func runC20(c *core.Case) {
 			r.Invalid = "handoff target is never a connected replica here"
 		case !isPrimary && (r.Path == "/import" || r.Path == "/halt" || r.Path == "/tx"):
 			r.Invalid = "not allowed for the node's role (not primary)"
+		case nameCls != "db" && r.Path == "/halt" && r.Method == "DELETE" && c20HoldsThatLock(target, q.Get("name"), q.Get("id")):
+			// (an earlier valid POST /halt created this database and took exactly
+			// this lock: the request is a legitimate release)
 		case nameCls != "db" && (r.Path == "/tx" || (r.Path == "/halt" && r.Method == "DELETE")):
 			r.Invalid = "refers to a database/lock that must already exist"
 		case nameCls == "weird" && q.Get("name") != "db-journal" && (r.Path == "/import" || r.Path == "/halt"):
@@ -833,6 +837,17 @@ func runC20(c *core.Case) {
 }
 
 // forgeSnapshotLTX builds a well-formed snapshot file (min TXID 1) of img.
+// c20HoldsThatLock: the node has a database of that name whose halt lock is held
+// under exactly that id.
+func c20HoldsThatLock(n *cluster.CNode, name, id string) bool {
+	db := n.Store.DB(name)
+	if db == nil {
+		return false
+	}
+	v, err := strconv.ParseInt(id, 10, 64)
+	return err == nil && v != 0 && db.VerifHaltLockID() == v
+}
+
 func forgeSnapshotLTX(img *ref.Image, maxTXID uint64) []byte {
 	var buf bytes.Buffer
 	enc := ltx.NewEncoder(&buf)
